@@ -13,7 +13,7 @@
    Units.  All numbers are integers: orthogonal / network / Voronoi locations are the integer
    coordinates themselves; continuous positions are in quarter units; hexagon centres are in
    units (sqrt 3 / 2, 1 / 2), i.e. the code's  x*sqrt3 + p*sqrt3/2 , y*1.5  is (2x+p, 3y);
-   marker sizes are reduced fractions (num, den); colours and marker shapes are indices into
+   marker sizes are reduced fractions (num, den), z-orders are in quarter units; colours and marker shapes are indices into
    the harness palettes (opaque tokens here, index 0 = the default "tab:blue" / "o"). *)
 From Coq Require Import ZArith List Bool.
 From Mesa Require Import Common.ListX Generated.Tables.
@@ -134,7 +134,7 @@ Fixpoint portray (pt : portrayal) (k : Z) : pdict :=
 (* defaults of collect_agent_data(color=, marker=, zorder=), re-read from the source (T1) *)
 Definition DEF_COLOR : Z := gen_viz_default_color.
 Definition DEF_MARKER : Z := gen_viz_default_marker.
-Definition DEF_ZORDER : Z := gen_viz_default_zorder.
+Definition DEF_ZORDER : Z := 4 * gen_viz_default_zorder.      (* quarter units *)
 Definition get {A : Type} (o : option A) (d : A) : A := match o with Some x => x | None => d end.
 
 (* loc = agent.pos;  if loc is None: loc = agent.cell.coordinate   (None: AttributeError) *)
@@ -146,8 +146,10 @@ Record cols := {
   cl_loc : list coord; cl_s : list (Z * Z); cl_c : list Z; cl_m : list Z; cl_z : list Z }.
 Definition cols_empty : cols := {| cl_loc := []; cl_s := []; cl_c := []; cl_m := []; cl_z := [] |}.
 
+(* portrayal sizes and z-orders are floats in Matplotlib; the histories give them in QUARTER units
+   (size 7 = 1.75, zorder 6 = 1.5) so that any truncation / coercion on the way is visible *)
 Definition size_of (dflt : Z * Z) (d : pdict) : Z * Z :=
-  match pd_size d with Some s => (s, 1) | None => dflt end.
+  match pd_size d with Some s => reduce (s, 4) | None => dflt end.
 
 (* one iteration of  for agent in space.agents:  (None = the AttributeError propagates) *)
 Definition collect_step (pt : portrayal) (dflt : Z * Z) (acc : option cols) (a : agent) : option cols :=
